@@ -120,6 +120,13 @@ class LocalFuncV:
         self.node, self.env, self.mod, self.qual = node, env, mod, qual
 
 
+class PropertyV:
+    """property(fget): a descriptor built at run time (installed on a class with setattr)"""
+
+    def __init__(self, fget):
+        self.fget = fget
+
+
 class LambdaV:
     def __init__(self, node, env, mod):
         self.node, self.env, self.mod = node, env, mod
@@ -580,6 +587,17 @@ class Ev:
         v = self.init_attr(obj, name)
         if v is not NotImplemented:
             return v
+        # attributes installed on the class by module-level statements: `setattr(Class, name, value)`, also inside a loop over a constant table
+        inst = self.installed_class_attrs(obj.cls)
+        if name in inst:
+            v = inst[name]
+            if isinstance(v, PropertyV):
+                return self.call(v.fget, [obj], {}, node, mod)
+            if isinstance(v, FuncV) and v.bound is None:
+                return FuncV(v.ref, bound=obj)
+            if isinstance(v, (LocalFuncV, LambdaV)):
+                raise self.err(f"method {name} installed on the class from a closure is not modelled", node, mod)
+            return v
         # delegating __getattr__
         owner, ga, _ = self.model.find_member(obj.cls, "__getattr__")
         if ga is not None:
@@ -589,6 +607,40 @@ class Ev:
             omod = self.model.mods[owner.split(":")[0]]
             return self.call_def(ga, omod, f"{owner}.__getattr__", [obj, name], {})
         raise self.err(f"unresolved attribute {name} on {obj.cls}", node, mod)
+
+    def installed_class_attrs(self, cref):
+        """{name: value} for module-level `setattr(<this class or a base>, name, value)` statements (folded with the module's own names)"""
+        cache = self.__dict__.setdefault("_installed", {})
+        if cref in cache:
+            return cache[cref]
+        out = {}
+        cache[cref] = out
+        for c in reversed(self.model.mro(cref)):
+            if c.startswith("ext:"):
+                continue
+            mname, q = c.split(":")
+            mod = self.model.mods[mname]
+            for st in mod.tree.body:
+                if not isinstance(st, (ast.For, ast.Expr)):
+                    continue
+                calls = [x for x in ast.walk(st) if isinstance(x, ast.Call) and isinstance(x.func, ast.Name) and x.func.id == "setattr" and len(x.args) == 3
+                         and isinstance(x.args[0], ast.Name) and x.args[0].id == q]
+                if not calls:
+                    continue
+                rec = []
+                saved = self.intr.get("builtins.setattr")
+                self.intr["builtins.setattr"] = lambda ev, a, k, rec=rec: rec.append((a[0], a[1], a[2]))
+                try:
+                    self.exec(st, {"__qual__": f"{mname}:<module>"}, mod)
+                finally:
+                    if saved is None:
+                        self.intr.pop("builtins.setattr", None)
+                    else:
+                        self.intr["builtins.setattr"] = saved
+                for target, nm, val in rec:
+                    if isinstance(target, ClsV) and target.ref == c and isinstance(nm, str):
+                        out[nm] = val
+        return out
 
     def init_attr(self, obj: Obj, name):
         """value of self.<name> from the constructor: a store directly in __init__ is evaluated
@@ -1060,6 +1112,9 @@ class Ev:
                 same = (type(a) is type(b)) and (getattr(a, "name", None), getattr(a, "ref", None), getattr(a, "cls", None)) == \
                        (getattr(b, "name", None), getattr(b, "ref", None), getattr(b, "cls", None))
                 return same if isinstance(op, ast.Is) else not same
+            if isinstance(a, Sentinel) or isinstance(b, Sentinel):
+                # object() sentinels are identical only to themselves
+                return (a is b) if isinstance(op, ast.Is) else (a is not b)
             if not (a is None or b is None or isinstance(a, bool) or isinstance(b, bool) or a is b):
                 raise self.err("identity comparison of non-constants", n, mod)
             if isinstance(a, (Obj, sp.Basic, Tup, str)) and b is None:
@@ -2036,7 +2091,7 @@ STR_METHODS = {"lower", "upper", "strip", "split", "startswith", "endswith", "jo
 
 BUILTINS = {"id", "frozenset", "len", "range", "tuple", "list", "sorted", "zip", "map", "int", "float", "str", "sum", "abs", "min",
             "max", "round", "set", "dict", "enumerate", "isinstance", "next", "reversed", "any", "all", "open",
-            "print", "type", "callable", "getattr", "repr", "hash", "bool", "slice"}
+            "print", "type", "callable", "getattr", "repr", "hash", "bool", "slice", "setattr", "property", "hasattr", "object"}
 
 
 _LOC_CACHE, _GEN_CACHE = {}, {}
@@ -3402,6 +3457,45 @@ def lib_round(ev, a, k, n, mod):
 
 lib_round.kw = {"ndigits"}
 LIB.setdefault("round", lib_round)
+
+
+def lib_property(ev, a, k, n, mod):
+    fget = a[0] if a else k.get("fget")
+    if fget is None or len(a) > 1 or set(k) - {"fget", "doc"}:
+        raise ev.err("property() with a setter / deleter is not modelled", n, mod)
+    return PropertyV(fget)
+
+
+lib_property.kw = {"fget", "doc"}
+LIB["property"] = lib_property
+
+
+def lib_hasattr(ev, a, k, n, mod):
+    try:
+        ev.get_attr(a[0], a[1], n, mod)
+        return True
+    except RaisedV as e:
+        if e.exc_name == "AttributeError":
+            return False
+        raise
+
+
+LIB["hasattr"] = lib_hasattr
+
+
+class Sentinel:
+    """object(): a value that is only ever compared by identity"""
+    _n = [0]
+
+    def __init__(self):
+        Sentinel._n[0] += 1
+        self.const_key = ("sentinel", Sentinel._n[0])
+
+    def __repr__(self):
+        return f"<object #{self.const_key[1]}>"
+
+
+LIB["object"] = lambda ev, a, k, n, mod: Sentinel()
 
 
 def lib_opaque_order(tag):
